@@ -77,6 +77,8 @@ pub struct World {
     pub stream_kind: bool,
     pub nevents: u64,
     pub next_work: usize,
+    /// answers given by children that were polled after completion (script.rs)
+    pub ghosts: usize,
 }
 
 pub static WORLD: Mutex<Option<World>> = Mutex::new(None);
@@ -110,6 +112,7 @@ impl World {
             stream_kind,
             nevents: 0,
             next_work: 1,
+            ghosts: 0,
         }
     }
 
